@@ -349,15 +349,44 @@ def swap_with_fresh_local(fn, w):
     others = [a for a in operands if path(fn, a) != w['path']]
     if len(others) != 1:
         return False
-    vid = root_var_id(path(fn, others[0]))
-    if vid is None or len(path(fn, others[0])) != 1:
+    return fresh_local_operand(fn, w, others[0])
+
+
+def fresh_local_operand(fn, w, operand, _depth=0):
+    n = w['node']
+    op = path(fn, operand)
+    vid = root_var_id(op)
+    # a local list, or a list member of a local aggregate (`struct { List pending, done; } lists;`), default-constructed
+    if vid is None or len(op) > 2 or (len(op) == 2 and (not op[1].startswith('.') or op[1].endswith('()'))):
         return False
     vd = fn.var_decls().get(vid)
+    if not vd and len(op) == 1 and _depth < 3 and fn.access in ('private', 'protected'):
+        # a list handed in by reference to a non-public step: fresh when every call site passes a fresh local that is not used before the call
+        pidx = {pp['id']: i for i, pp in enumerate(fn.params)}
+        cs = fn.tu.callers().get(fn.id, [])
+        if vid in pidx and cs:
+            for (g, cn) in cs:
+                ca = g.call_args(cn)
+                if pidx[vid] >= len(ca):
+                    return False
+                pseudo = {'node': cn, 'path': None, 'pos': g.pos(cn)}
+                if not fresh_local_operand(g, pseudo, ca[pidx[vid]], _depth + 1):
+                    return False
+            return True
+        return False
     if not vd or not vd.get('init'):
         return False
     init = fn.strip(vd['init'])
-    if not fn.is_construct(init) or fn.nodes[init].get('args'):
+    if fn.nodes[init]['cls'] == 'InitListExpr' and not fn.kids(init):
+        pass
+    elif not fn.is_construct(init) or [a for a in fn.nodes[init].get('args', []) if fn.nodes[a]['cls'] != 'CXXDefaultArgExpr']:
         return False
+    if len(op) == 2:
+        t = fn.tu.type(vd['t'])
+        c = fn.tu.class_by_q.get((t or {}).get('recq') or '')
+        # an aggregate without default member initialisers for that member: value / default construction leaves the list empty
+        if not c or c.get('bases') or not any(fl['name'] == op[1][1:] and not fl.get('init') for fl in c.get('fields', [])):
+            return False
     # no earlier use of the local
     for m, mo in fn.nodes.items():
         if mo['cls'] == 'DeclRefExpr' and fn.decl(m)['kind'] == 'var' and fn.decl(m)['id'] == vid:
